@@ -3,7 +3,7 @@ import asyncio
 import sys
 import threading
 import traceback
-from typing import Any, Dict, List
+from typing import Any, Dict, List, Optional
 
 from hypothesis import strategies as st
 
@@ -162,8 +162,10 @@ def _gather(case: Dict[str, Any], res: CaseResult) -> None:
         res.cls("gather-without-prior-setup")
 
 
-def _live_prog(kind: str, k: int) -> Dict[str, Any]:
-    fns = {"w": {"kind": kind, "res": "async-thread"}, "a": {"kind": "term", "res": "async-thread"},
+def _live_prog(kind: str, k: int, attrs: Optional[Dict[str, Any]] = None) -> Dict[str, Any]:
+    attrs = attrs or {}
+    fns = {"w": {"kind": kind, "res": "async-thread", "seq": bool(attrs.get("seq_w")), "prio": attrs.get("prio_w", 0)},
+           "a": {"kind": "term", "res": "async-thread", "seq": bool(attrs.get("seq_a"))},
            "m": {"kind": "term", "res": "main-thread"}}
     body = [
         {"k": "call", "fn": "w", "site": "@s0", "mark": True, "args": [["p", "p0"]], "kwargs": {}, "active": None, "unpack": None, "tags": [], "out": "v0"},
@@ -173,10 +175,12 @@ def _live_prog(kind: str, k: int) -> Dict[str, Any]:
     return {"name": "L", "params": [["p0", None]], "fns": fns, "body": body, "ret": ["T", [["v", "v0"], ["v", "v2"]]]}
 
 
-def _live_fail_prog(fail_res: str) -> Dict[str, Any]:
+def _live_fail_prog(fail_res: str, attrs: Optional[Dict[str, Any]] = None) -> Dict[str, Any]:
     """An async-thread node that waits for a sibling coroutine, next to a node that fails: after the failure the
     await must return control to the loop although the other node is still running."""
-    fns = {"w": {"kind": "waitev", "res": "async-thread"}, "f": {"kind": "bomb", "res": fail_res}}
+    attrs = attrs or {}
+    fns = {"w": {"kind": "waitev", "res": "async-thread", "seq": bool(attrs.get("seq_w")), "prio": attrs.get("prio_w", 0)},
+           "f": {"kind": "bomb", "res": fail_res}}
     body = [
         {"k": "call", "fn": "w", "site": "@s0", "mark": True, "args": [["p", "p0"]], "kwargs": {}, "active": None, "unpack": None, "tags": [], "out": "v0"},
         {"k": "call", "fn": "f", "site": "@s1", "mark": False, "args": [["c", "BOOM"]], "kwargs": {}, "active": None, "unpack": None, "tags": [], "out": "v1"},
@@ -187,10 +191,10 @@ def _live_fail_prog(fail_res: str) -> Dict[str, Any]:
 def _live(case: Dict[str, Any], res: CaseResult) -> None:
     kind, k, mc = case["live"], case["k"], case["config"].get("mc", 2)
     if kind == "fail":
-        P = _live_fail_prog(case.get("fail_res", "async-thread"))
+        P = _live_fail_prog(case.get("fail_res", "async-thread"), case.get("attrs"))
         mc = max(mc, 2)
     else:
-        P = _live_prog("waitev" if kind == "event" else "barrier", k)
+        P = _live_prog("waitev" if kind == "event" else "barrier", k, case.get("attrs"))
     b = prog.build(P, is_async=True, mc=mc)
     prog.LIVE.clear()
     prog.LIVE.update(event=threading.Event(), barrier=threading.Barrier(k), timeout=LIVE_TIMEOUT, timed_out=False)
@@ -224,6 +228,8 @@ def _live(case: Dict[str, Any], res: CaseResult) -> None:
     res.evals = 1
     res.nontrivial = True
     res.cls("live-" + kind)
+    if (case.get("attrs") or {}).get("seq_w"):
+        res.cls("live-sequential-waiter")
     for v in vals:
         if isinstance(v, BaseException) and kind != "fail":
             res.viol("error", f"live case raised {type(v).__name__}: {str(v)[:300]}")
@@ -263,7 +269,9 @@ def cases(draw: Any, tier: str) -> Dict[str, Any]:
     fam = draw(st.sampled_from(["eq", "eq", "gather", "gather", "live"]))
     if fam == "live":
         return {"family": "live", "live": draw(st.sampled_from(["event", "barrier", "fail"])), "k": draw(st.integers(2, 4)),
-                "config": {"mc": draw(st.integers(1, 3))}, "fail_res": draw(st.sampled_from(["async-thread", "thread", "main-thread"]))}
+                "config": {"mc": draw(st.integers(1, 3))}, "fail_res": draw(st.sampled_from(["async-thread", "thread", "main-thread"])),
+                # the waiting async-thread node may be sequential / prioritised: the loop must stay free all the same
+                "attrs": {"seq_w": draw(st.booleans()), "seq_a": draw(st.booleans()), "prio_w": draw(st.integers(-2, 2))}}
     c = draw(richgen.rich_case(depth=1, max_stmts=7, flag_w=5, debug_w=1, split_w=1, seqop_w=1))
     P = c["prog"]
     sites = prog.sites_of(P)
